@@ -290,7 +290,9 @@ def prepare_run_ctrl(multinet, ctrl_variables=None, **kwargs):
     else:
         ctrl_variables['check_each_level'] = True
 
-    ctrl_variables['errors'] = (NetCalculationNotConverged,)
+    # a member net that cannot be calculated raises its own error class (e.g. PipeflowNotConverged)
+    ctrl_variables['errors'] = (NetCalculationNotConverged,) + tuple(
+        err for net_vars in ctrl_variables['nets'].values() for err in net_vars['errors'])
 
     ctrl_variables['level'], ctrl_variables['controller_order'] = \
         get_controller_order_multinet(multinet)
